@@ -102,7 +102,7 @@ def config_event(cfg, rng):
     from optimism import FunctionSpace, Mechanics, SparseMatrixAssembler, Mesh
     axisym = cfg["mode"] == "axisymmetric"
     proj = {"none": None, "p0": 0, "p1": 1}[cfg["proj"]]
-    order = 2 if proj == 1 else rng.choice([1, 2, 3])
+    order = 2 if proj == 1 else rng.choice([1, 2, 3] + ([4] if common.tier() == "thorough" else []))
     ev = dict(e="Config", cfg={k: cfg[k] for k in ("kind", "mode", "proj", "mat")}, constructed=False, kh="NA", sym="NA",
               order=order)
     try:
